@@ -51,6 +51,23 @@ def final_checks(w):
     T = ctx.call('thb_to_hb', hs.thb_to_hb)
     if T is RAISED():
         return
+    # the transform itself against the model's (truncation from the definition + least squares), so that the THB
+    # evaluation references below do not lean on pyiga's own matrix
+    if nd * IM.shape[0] <= 400000:
+        Tm = m.thb_to_hb()
+        ctx.check(T.shape == Tm.shape and maxabs(dense(T) - Tm) <= 1e-9, 'thb-to-hb-vs-definition',
+                  lambda: 'thb_to_hb() differs from the transform derived from the definition of truncation by %.3g '
+                  '(%d levels, disparity %s, history %s)' % (maxabs(dense(T) - Tm) if T.shape == Tm.shape else -1, L, cfg['disparity'], w.history),
+                  sig('thb'))
+        ITm = m.represent_fine_thb()
+        ITp = ctx.call('represent_fine(truncate)', hs.represent_fine, truncate=True)
+        if ITp is RAISED():
+            return
+        ctx.check(ITp.shape == ITm.shape and maxabs(ITp - ITm) <= TOL, 'represent-fine-thb',
+                  lambda: 'represent_fine(truncate=True) differs from the definition of the truncated basis by %.3g'
+                  % (maxabs(ITp - ITm) if ITp.shape == ITm.shape else -1), sig('represent'))
+        T = sp.csr_matrix(Tm)
+        ctx.count('thb.transform.checked')
     # ---- (c) prolongate_to from every snapshot (coarse) to the final space (fine)
     for (S, mS, step) in w.snapshots:
         if mS.L > m.L:
